@@ -173,28 +173,48 @@ def pclean(p):
     return "/" + q.lstrip("/") if q.startswith("/") else q
 
 
-def imp_text(form, target):
+def imp_parts(form, target):
+    """(dot, PKGPATH) of the import statement for one edge"""
     d, _, b = target.rpartition("/")
     if form == "rel":
-        return "//{./%s}" % target
+        return True, "/" + target
     if form == "det":
-        return "//{./%s}" % ((d + "/" if d else "") + "q/../" + b)
+        return True, "/" + (d + "/" if d else "") + "q/../" + b
     if form == "dbl":
-        return "//{//%s}" % target.replace("/", "//")
-    return "//{/%s}" % target
+        return False, "//" + target.replace("/", "//")
+    return False, "/" + target
 
 
-def spelled_resolve(root, importer_raw, form, target):
-    """raw file name handed to ReadFile/bytesValue (simple names only; cross-checked by the observed opens)"""
-    root_path = root if root else "/"
+def imp_text(form, target):
+    dot, name = imp_parts(form, target)
+    return "//{" + ("." if dot else "") + name + "}"
+
+
+def module_root(root, mods, sd):
+    """nearest ancestor-or-self of directory sd holding go.mod (the specification's module root)"""
+    have = {pclean((root if root else "") + "/" + m + "/") for m in mods} | {root if root else "/"}
+    d = sd
+    while True:
+        if d in have:
+            return d
+        if d == "/":
+            return None
+        d = pclean(d.rpartition("/")[0] + "/")
+
+
+def spelled_resolve(root, mods, importer_raw, form, target):
+    """raw file name handed to ReadFile/bytesValue (simple names only; re-derived by the Coq model, report_e,
+    and cross-checked by the observed opens)"""
+    sd = pclean(importer_raw.rpartition("/")[0] + "/")
     if form in ("rel", "det"):
-        sd = pclean(importer_raw.rpartition("/")[0] + "/")
         return pclean(sd + "/" + target) + ".arrai"
+    root_path = module_root(root, mods, sd)
     return root_path + "/" + pclean("/" + target).strip("/") + ".arrai"
 
 
 def gen_spelled_cases(rng, tier):
-    """spec = (root, {file (relative to the root, no extension): [(form, target relative to the importer's dir (rel/det) or to the root)]}, main imports)"""
+    """spec = (root, {file (relative to the root, no extension): [(form, text)]}, main imports, nested module dirs);
+    text is what follows ./ (rel, det) or / (root, dbl: relative to the importing file's module root)"""
     specs = []
     for root in ("", "/m", "/srv/mod"):
         files = {"x/a": [("rel", "b")], "x/b": [("root", "x/a")],
@@ -202,60 +222,109 @@ def gen_spelled_cases(rng, tier):
                  "lib/leaf": [], "lib/both": [("rel", "leaf"), ("root", "lib/leaf"), ("dbl", "lib/leaf")]}
         for m in ([("rel", "x/a")], [("root", "x/a")], [("rel", "x/b")], [("rel", "y/p")], [("root", "y/r")], [("dbl", "x/b")],
                   [("rel", "lib/both")], [("rel", "lib/both"), ("root", "lib/leaf"), ("det", "lib/leaf")]):
-            specs.append((root, files, m))
-    n = 26 if tier == "quick" else 300
-    dirs = ["x", "x/s", "y"]
+            specs.append((root, files, m, []))
+        # nested module "inner" (and "inner/deep/mod") with same-named files p, lib in the outer and the inner root:
+        # a //{/p} from a script in the nested root directory, or deeper, must read the nested root's p whatever
+        # was resolved before in the same evaluation (the root cache lives in the context)
+        nfiles = {"p": [], "lib": [], "inner/p": [], "inner/lib": [], "inner/entry": [("root", "p")], "inner/deep/x": [("root", "p")],
+                  "inner/deep/p": [], "inner/two": [("root", "p"), ("rel", "deep/x")], "inner/deep/mod/p": [], "inner/deep/mod/e": [("root", "p")],
+                  "outer_user": [("root", "p")]}
+        for mods in (["inner"], ["inner", "inner/deep/mod"]):
+            for m in ([("root", "lib"), ("rel", "inner/entry")], [("rel", "inner/entry"), ("root", "lib")],
+                      [("root", "lib"), ("rel", "inner/entry"), ("rel", "inner/deep/x")], [("rel", "inner/deep/x"), ("rel", "inner/entry")],
+                      [("root", "p"), ("rel", "inner/two")], [("rel", "outer_user"), ("rel", "inner/deep/mod/e"), ("rel", "inner/entry")],
+                      [("rel", "inner/entry"), ("rel", "outer_user")], [("root", "lib"), ("rel", "inner/deep/mod/e")]):
+                specs.append((root, nfiles, m, mods))
+    n = 30 if tier == "quick" else 300
+    dirs = ["x", "x/s", "y", "x/s/t"]
     for _ in range(n):
         root = rng.choice(["", "", "/m", "/srv/mod", "/r/deep/er"])
-        k = rng.randrange(2, 6)
-        names = ["%s/f%d" % (rng.choice(dirs), i) for i in range(k)]
-        cyc = rng.random() < 0.5
+        mods = [d for d in ("x", "x/s", "x/s/t") if rng.random() < 0.35]
+        k = rng.randrange(2, 7)
+        names = sorted(set("%s/f%d" % (rng.choice(dirs), rng.randrange(3)) for i in range(k)))   # same basenames in several dirs
+        k = len(names)
+        cyc = rng.random() < 0.35
+
+        def mroot(fd):
+            c = [m for m in mods if fd == m or fd.startswith(m + "/")]
+            return max(c, key=len) if c else ""
         files = {}
         for i, f in enumerate(names):
             imps = []
+            fd = f.rpartition("/")[0]
+            mr = mroot(fd)
             for _ in range(rng.randrange(0, 3)):
                 j = rng.randrange(k) if cyc else (rng.randrange(i + 1, k) if i + 1 < k else None)
                 if j is None:
                     continue
                 t = names[j]
-                fd = f.rpartition("/")[0]
-                forms = ["root", "root", "dbl"]
+                forms = []
+                if mr == "" or t.startswith(mr + "/"):
+                    forms += ["root", "root", "dbl"]
                 if t.startswith(fd + "/"):
                     forms += ["rel", "rel", "det"]
+                if not forms:          # other module: spell it from this module's root anyway (another file or a missing one)
+                    imps.append(("root", t.rpartition("/")[2]))
+                    continue
                 form = rng.choice(forms)
-                imps.append((form, t[len(fd) + 1:] if form in ("rel", "det") else t))
+                imps.append((form, t[len(fd) + 1:] if form in ("rel", "det") else (t[len(mr) + 1:] if mr else t)))
             files[f] = imps
         m = []
-        for _ in range(rng.randrange(1, 3)):
+        for _ in range(rng.randrange(1, 4)):
             t = rng.choice(names)
-            m.append((rng.choice(["rel", "root", "det", "dbl"]), t))
-        specs.append((root, files, m))
+            m.append((rng.choice(["rel", "rel", "root", "det", "dbl"]), t))
+        specs.append((root, files, m, mods))
     return specs
 
 
 def build_spelled_case(cid, shard, spec, budget):
-    root, files, m = spec
+    root, files, m = spec[:3]
+    mods = list(spec[3]) if len(spec) > 3 else []
     main_raw = root + "/main.arrai"
+    order = sorted(files)
+    const = {pclean(root + "/" + f + ".arrai"): 10 ** i for i, f in enumerate(order)}
     exist = {pclean(root + "/" + f + ".arrai"): imps for f, imps in files.items()}
-    names, graph, todo = {}, {}, []
+    names, graph, todo, edges = {}, {}, [], []
 
-    def key(raw):
+    def key(importer, form, t):
+        raw = spelled_resolve(root, mods, importer, form, t)
+        edges.append((importer, form, t, raw))
         if raw not in names:
             names[raw] = len(names) + 1
             todo.append(raw)
         return names[raw]
-    main_keys = [key(spelled_resolve(root, main_raw, form, t)) for form, t in m]
+    main_keys = [key(main_raw, form, t) for form, t in m]
     while todo:
         raw = todo.pop(0)
         imps = exist.get(pclean(raw))
         if imps is not None:
-            graph[names[raw]] = [key(spelled_resolve(root, raw, form, t)) for form, t in imps]
-    text = lambda imps: "1" + "".join(" + " + imp_text(form, t) for form, t in imps)
-    hfiles = {p: text(imps) for p, imps in exist.items()}
-    hfiles[(root if root else "") + "/go.mod"] = "module m"
+            graph[names[raw]] = [key(raw, form, t) for form, t in imps]
+    byname = {v: k for k, v in names.items()}
+
+    def value(k, stack):
+        """value the specification assigns: file constant + values of its imports (None: cycle or missing file)"""
+        if k not in graph or k in stack:
+            return None
+        tot = const[pclean(byname[k])]
+        for j in graph[k]:
+            v = value(j, stack | {k})
+            if v is None:
+                return None
+            tot += v
+        return tot
+    expect = 1
+    for k in main_keys:
+        v = value(k, frozenset())
+        expect = None if (v is None or expect is None) else expect + v
+    text = lambda c, imps: str(c) + "".join(" + " + imp_text(form, t) for form, t in imps)
+    hfiles = {p: text(const[p], imps) for p, imps in exist.items()}
+    gomods = [root if root else "/"] + [pclean(root + "/" + d) for d in mods]
+    for d in gomods:
+        hfiles[pclean(d + "/go.mod")] = "module m"
     return {"id": cid, "kind": "s", "graph": {str(k): v for k, v in graph.items()}, "main": main_keys, "base": "mem%d" % shard,
-            "names": names, "spec": [root, {f: [list(x) for x in imps] for f, imps in files.items()}, [list(x) for x in m]],
-            "h": {"id": cid, "fs": "mem", "files": hfiles, "main": main_raw, "src": text(m), "budget_ms": budget}}
+            "names": names, "edges": edges, "gomods": gomods, "expect": expect,
+            "spec": [root, {f: [list(x) for x in imps] for f, imps in files.items()}, [list(x) for x in m], mods],
+            "h": {"id": cid, "fs": "mem", "files": hfiles, "main": main_raw, "src": text(1, m), "budget_ms": budget}}
 
 
 def graph_text(imps):
@@ -456,8 +525,9 @@ def main_in(run, vh, proof, open_sigs, qcur, hang_cur, work, tier, seed, replay)
         elif c.get("kind") == "g":
             gspecs = [({int(k): v for k, v in c["graph"].items()}, c["main"])]
         elif c.get("kind") == "s":
-            r0, f0, m0 = c["spec"]
-            sspecs = [(r0, {f: [tuple(x) for x in imps] for f, imps in f0.items()}, [tuple(x) for x in m0])]
+            r0, f0, m0 = c["spec"][:3]
+            sspecs = [(r0, {f: [tuple(x) for x in imps] for f, imps in f0.items()}, [tuple(x) for x in m0],
+                       c["spec"][3] if len(c["spec"]) > 3 else [])]
         elif c.get("kind") == "p":
             pspecs = [(c["fn"], c["a"], c["b"])]
     else:
@@ -514,6 +584,22 @@ def main_in(run, vh, proof, open_sigs, qcur, hang_cur, work, tier, seed, replay)
             r = [49] if r == [49] else [48]
         precs.append("{| p_id := %d; p_fn := %s; p_a := %s; p_b := %s; p_r := %s |}" % (c["id"], PFN[c["fn"]], sv(c["a"]), sv(c["b"]), sv(r)))
     pres = coq_reports(run, "c16p", "case16p", precs, "report_p cases", shard=600) if precs else {}
+    # --- edges of the spelled graphs: the generator's resolution re-derived by the repaired Coq model
+    erecs, eby = [], {}
+    for c in gcases:
+        if c["kind"] != "s":
+            continue
+        for j, (importer, form, t, raw) in enumerate(c["edges"]):
+            dot, name = imp_parts(form, t)
+            eid = c["id"] * 1000 + j
+            eby[eid] = (c, importer, form, t, raw)
+            erecs.append("{| e_id := %d; e_gomods := %s; e_dot := %s; e_name := %s; e_importer := %s; e_expect := %s |}" % (
+                eid, zll([bts(d) for d in c["gomods"]]), cbool(dot), zl(bts(name)), zl(bts(importer)), zl(bts(raw))))
+    eres = coq_reports(run, "c16e", "case16e", erecs, "report_e cases", shard=500) if erecs else {}
+    for eid in sorted(eres)[:5]:
+        c, importer, form, t, raw = eby[eid]
+        run.corr_breaks.append({"what": "generator and Sys/Import.v resolve disagree on an edge of a spelled graph",
+                                "edge": [importer, imp_text(form, t), raw], "gomods": c["gomods"]})
     pby = {c["id"]: c for c in pcases}
     for cid, code in sorted(pres.items()):
         c = pby[cid]
@@ -575,7 +661,20 @@ def main_in(run, vh, proof, open_sigs, qcur, hang_cur, work, tier, seed, replay)
         rec = {"case": {"kind": c["kind"], "graph": c["graph"], "main": c["main"], "files": c["h"]["files"], "src": c["h"]["src"]},
                "observed": show(o)}
         if c["kind"] == "s":
-            rec["case"].update({"spec": c["spec"], "main_path": c["h"]["main"], "fs": "memory", "keys": c["names"]})
+            rec["case"].update({"spec": c["spec"], "main_path": c["h"]["main"], "fs": "memory", "keys": c["names"], "go_mod_dirs": c["gomods"]})
+            if o.get("st") == "ok" and c["expect"] is not None:
+                try:
+                    got = float(o["val"]["n"])
+                except Exception:
+                    got = None
+                if got != float(c["expect"]):
+                    rec["oracle"] = ("the value differs from the one the specification assigns (each file = its constant + its imports, a //{/x} import "
+                                     "resolved against the nearest go.mod ancestor of the importing file whatever was resolved before): a file outside "
+                                     "the importing script's module root was read (Properties/C16.v C16_root_import_confined_to_nearest_module, "
+                                     "C16_root_cache_transparent)")
+                    rec["expected_value"] = c["expect"]
+                    run.classify_failure(None, rec)
+                    continue
         if o.get("st") == "panic" or code == 1:
             rec["oracle"] = "evaluation must answer; value iff the import graph reachable from the main script is acyclic and complete, error otherwise (Properties/C16.v C16_cycles_fail_fast, C16_success_means_acyclic)"
             run.classify_failure(None, rec)
